@@ -33,3 +33,12 @@ package graphsync
 //@   callsite requestmanager.New: assert $panicCallback == gsConfig.panicCallback
 //@   callsite responsemanager.New: assert $panicCallback == gsConfig.panicCallback
 //@   callsite selectorvalidator.SelectorValidator: assert gsConfig.registerDefaultValidator && $maxAcceptedDepth == 100
+
+//@ -- C01: a decoded message's blocks (each filed under, and hashing to, its own CID: message/v2 fromIPLD) are what the
+//@ -- request manager is given, unchanged
+//@ func graphSyncReceiver.ReceiveMessage
+//@   lenient
+//@   safety off
+//@   requires wfMsg(incoming) && (forall k cid.Cid :: k in incoming.blocks ==> isSumOf(k, blkData(incoming.blocks[k])))
+//@   modifies alloc
+//@   callsite RequestManager.ProcessResponses: assert blkListOK($blks) && $p == sender
